@@ -118,6 +118,28 @@ def handle (ws : List String) : String :=
         | none => "IndexError"
       | none => "bad-op"
     | none => "bad-op"
+  | "njtrace" :: n :: rest =>
+    -- one item per pass of the main loop: `f,g;id:xsub,id:xsub,…` (pool order; the pair picked in that pass)
+    match n.toNat? with
+    | some n =>
+      match parseMatrix n rest with
+      | some d =>
+        unwords ((njStates n (njInit n d)).map fun s =>
+          (match njPick s with | some (f, g) => s!"{f},{g}" | none => "none") ++ ";" ++
+            ",".intercalate (s.pool.map fun k => s!"{k}:{(s.x k).render}"))
+      | none => "bad-op"
+    | none => "bad-op"
+  | "uptrace" :: n :: rest =>
+    -- one item per pass: `f,g:d(f,g);id:distance_from_tip:cluster_size,…`
+    match n.toNat? with
+    | some n =>
+      match parseMatrix n rest with
+      | some d =>
+        unwords ((upStates n (upInit n d)).map fun s =>
+          (match upPick s with | some (f, g) => s!"{f},{g}:{(s.d f g).render}" | none => "none") ++ ";" ++
+            ",".intercalate (s.pool.map fun k => s!"{k}:{(s.h k).render}:{(s.cl k).length}"))
+      | none => "bad-op"
+    | none => "bad-op"
   | "nj" :: n :: rest =>
     match n.toNat? with
     | some n =>
